@@ -78,15 +78,20 @@ from array import array  # noqa: E402
 
 
 class Limbs:
-    """Read-only sequence of limb triples [s, hi, lo], 24 bytes per sample instead of ~200 as nested lists.
+    """Read-only sequence of equally long integer rows - limb triples [s, hi, lo] of recorded floats (width 3) or exact
+    rationals [n, d] (width 2) - packed into one array: 8 bytes per integer instead of ~70 as nested lists.
     Behaves like a list of lists for reading, compares equal to one, serialises to JSON as one."""
-    __slots__ = ("a",)
+    __slots__ = ("a", "w")
 
-    def __init__(self, triples=(), _a=None):
-        self.a = _a if _a is not None else array("q", [v for t in triples for v in t])
+    def __init__(self, rows=(), _a=None, _w=3):
+        if _a is not None:
+            self.a, self.w = _a, _w
+        else:
+            self.w = len(rows[0]) if len(rows) else _w
+            self.a = array("q", [v for t in rows for v in t])
 
     def __len__(self):
-        return len(self.a) // 3
+        return len(self.a) // self.w
 
     def __getitem__(self, i):
         if isinstance(i, slice):
@@ -95,19 +100,19 @@ class Limbs:
             i += len(self)
         if not 0 <= i < len(self):
             raise IndexError(i)
-        return list(self.a[3 * i:3 * i + 3])
+        return list(self.a[self.w * i:self.w * (i + 1)])
 
     def __iter__(self):
-        a = self.a
-        for i in range(0, len(a), 3):
-            yield [a[i], a[i + 1], a[i + 2]]
+        a, w = self.a, self.w
+        for i in range(0, len(a), w):
+            yield list(a[i:i + w])
 
     def tolist(self):
         return list(self)
 
     def __eq__(self, other):
         if isinstance(other, Limbs):
-            return self.a == other.a
+            return self.w == other.w and self.a == other.a
         return self.tolist() == other
 
     def __ne__(self, other):
@@ -119,30 +124,40 @@ class Limbs:
         return len(self.a) > 0
 
     def __reduce__(self):
-        return (_limbs_from_array, (self.a,))
+        return (_limbs_from_array, (self.a, self.w))
 
     def __repr__(self):
         return "Limbs(%r)" % self.tolist()
 
 
-def _limbs_from_array(a):
-    return Limbs(_a=a)
+def _limbs_from_array(a, w=3):
+    return Limbs(_a=a, _w=w)
 
 
-def _is_triple(t):
-    return type(t) is list and len(t) == 3 and type(t[0]) is int and type(t[1]) is int and type(t[2]) is int
+_I64 = 1 << 62
+
+
+def _is_row(t, w):
+    if type(t) is not list or len(t) != w:
+        return False
+    for v in t:
+        if type(v) is not int or not -_I64 < v < _I64:
+            return False
+    return True
 
 
 def compact(o):
-    """Replace every list of >= 4 limb triples inside a recorded event by a Limbs object (in place where possible)."""
+    """Replace every list of >= 4 integer rows of width 2 or 3 inside a recorded event by a Limbs object (in place)."""
     if type(o) is dict:
         for k, v in o.items():
             if type(v) in (list, dict):
                 o[k] = compact(v)
         return o
     if type(o) is list:
-        if len(o) >= 4 and all(_is_triple(t) for t in o):
-            return Limbs(o)
+        if len(o) >= 4 and type(o[0]) is list and len(o[0]) in (2, 3):
+            w = len(o[0])
+            if all(_is_row(t, w) for t in o):
+                return Limbs(o)
         for i, v in enumerate(o):
             if type(v) in (list, dict):
                 o[i] = compact(v)
